@@ -743,7 +743,8 @@ class Rtc(ContentElement):
     elif isinstance(self.first_child(), Rp) and isinstance(self.last_child(), Rp):
       expect = (type(None),)
     else:
-      expect = (Rt, Rp)
+      # the delimited form `Rp Rt* Rp` can only be built with push_children
+      expect = (Rt,)
 
     if not isinstance(child, expect):
       raise ValueError("Children of rtc do not conform to requirements")
